@@ -59,6 +59,52 @@ package eval
 //@   ensures okBool(e.eval, env) ? (err == nil && b == vBool(e.eval, env)) : failBool(e.eval, env, err)
 //@   ensures !okBool(e.eval, env) ==> !b
 
+// ---------------------------------------------------- entity hierarchy (`in`)
+//
+// reach(env, a, b): b is reachable from a by following parent links of
+// entities present in the store (reflexive-transitive closure of edge).
+//@ spec func present(env Env, x types.EntityUID) bool = env.Entities.Get#1(x)
+//@ spec func parentsOf(env Env, x types.EntityUID) types.EntityUIDSet = env.Entities.Get#0(x).Parents
+//@ spec func edge(env Env, a types.EntityUID, b types.EntityUID) bool
+//@ axiom edge_def: forall env Env, a types.EntityUID, b types.EntityUID :: { edge(env, a, b) } { has(parentsOf(env, a).m, b) } edge(env, a, b) == (present(env, a) && has(parentsOf(env, a).m, b))
+//@ spec func reach(env Env, a types.EntityUID, b types.EntityUID) bool
+//@ axiom reach_refl: forall env Env, a types.EntityUID :: { reach(env, a, a) } reach(env, a, a)
+//@ axiom reach_step: forall env Env, a types.EntityUID, b types.EntityUID, c types.EntityUID :: { reach(env, a, b), edge(env, b, c) } (reach(env, a, b) && edge(env, b, c)) ==> reach(env, a, c)
+// Induction principle of the closure (least fixed point), checked in Lean
+// (/verif/lean/Reach.lean, theorem not_reach_of_closed): a set that contains a,
+// is closed under edge and does not contain b witnesses that b is unreachable.
+//@ axiom reach_closed: forall env Env, a types.EntityUID, b types.EntityUID, S Set[types.EntityUID] :: { S[a], reach(env, a, b) } (S[a] && !S[b] && (forall x types.EntityUID, y types.EntityUID :: (S[x] && edge(env, x, y)) ==> S[y])) ==> !reach(env, a, b)
+// Cardinality of a Go map is consistent with its key set.
+//@ axiom parents_card: forall env Env, x types.EntityUID, y types.EntityUID :: { has(parentsOf(env, x).m, y) } has(parentsOf(env, x).m, y) ==> len(parentsOf(env, x).m) > 0
+
+//@ spec func iter_ImmutableMapSet_All(s mapset.ImmutableMapSet[types.EntityUID], k types.EntityUID) bool = has(s.m, k)
+//@ spec func inTodo(todo []types.EntityUID, x types.EntityUID) bool = exists j int :: 0 <= j && j < len(todo) && todo[j] == x
+//@ spec func seen(known mapset.MapSet[types.EntityUID], entity types.EntityUID, x types.EntityUID) bool = x == entity || has(known.m, x)
+// leaf: a node the search never needs to expand
+//@ spec func leaf(env Env, k types.EntityUID) bool = !present(env, k) || len(parentsOf(env, k).m) == 0
+
+//@ func entityInOne
+//@   props C03
+//@   results r
+//@   ensures sound: r ==> reach(env, entity, parent)
+//@   ensures complete: !r ==> !reach(env, entity, parent)
+//@   loop 1
+//@     invariant entity != parent && !has(known.m, parent) && !has(known.m, entity)
+//@     invariant forall j int :: (0 <= j && j < len(todo)) ==> has(known.m, todo[j])
+//@     invariant seen(known, entity, candidate)
+//@     invariant sound: forall x types.EntityUID :: { seen(known, entity, x) } seen(known, entity, x) ==> reach(env, entity, x)
+//@     invariant expanded: forall x types.EntityUID, y types.EntityUID :: { edge(env, x, y) } (seen(known, entity, x) && x != candidate && !inTodo(todo, x) && edge(env, x, y)) ==> (y != parent && (leaf(env, y) || seen(known, entity, y)))
+//@   loop 1.1
+//@     invariant !has(known.m, parent) && !has(known.m, entity)
+//@     invariant forall j int :: (0 <= j && j < len(todo)) ==> has(known.m, todo[j])
+//@     invariant forall x types.EntityUID :: has(known.m, x) == (has(old(known).m, x) || ($done[x] && !leaf(env, x) && x != entity))
+//@     invariant len(todo) >= len(old(todo)) && (forall j int :: (0 <= j && j < len(old(todo))) ==> todo[j] == old(todo)[j])
+//@     invariant forall j int :: (len(old(todo)) <= j && j < len(todo)) ==> $done[todo[j]]
+//@     invariant forall x types.EntityUID :: (has(known.m, x) && !has(old(known).m, x)) ==> inTodo(todo, x)
+//@   ghost before "return false" S: forall x types.EntityUID :: S[x] == (seen(known, entity, x) || (x != parent && leaf(env, x)))
+//@   assert before "return false" closed: forall x types.EntityUID, y types.EntityUID :: { edge(env, x, y) } (S[x] && edge(env, x, y)) ==> S[y]
+//@   assert before "return false" unreachable: S[entity] && !S[parent] && !reach(env, entity, parent)
+
 // ---- generated by /verif/tools/gen_eval_contracts.py (regular part) ----
 
 // The evaluator interface: Eval is a deterministic function of the node and
